@@ -94,7 +94,7 @@ Theorem signed_rr_reads_back_validated :
     r_pos st = length wire -> r_ctx st = ctx ->
     get_rr H out (KR_Key k) rmac now2 multi 3 count (count - 1) st
     = Ok {| r_pos := length out; r_tsig := Some (kname k, rd'); r_ctx := c';
-            r_recs := (3, TSIG, ANY, length wire) :: r_recs st |}.
+            r_recs := (3, TSIG, ANY, length wire) :: r_recs st; r_opt := r_opt st |}.
 Proof. exact signed_rr_reads_back_validated_lemma. Qed.
 Print Assumptions signed_rr_reads_back_validated.
 
@@ -114,7 +114,7 @@ Theorem read_signed_message :
     ((fst fl / 2048) mod 16 =? 5) = false ->
     get_question out (Z.to_nat (fst qd)) 12 = Ok p ->
     get_section H out (KR_Key k) rmac now2 multi 1 (fst an) (Z.to_nat (fst an))
-      {| r_pos := p; r_tsig := None; r_ctx := ctx; r_recs := [] |} = Ok s1 ->
+      {| r_pos := p; r_tsig := None; r_ctx := ctx; r_recs := []; r_opt := false |} = Ok s1 ->
     get_section H out (KR_Key k) rmac now2 multi 2 (fst au) (Z.to_nat (fst au)) s1 = Ok s2 ->
     1 <= fst ad ->
     get_section_n H out (KR_Key k) rmac now2 multi 3 (fst ad) 0 (Z.to_nat (fst ad - 1)) s2 = Ok s3 ->
@@ -492,7 +492,7 @@ Example ex_read_signed :
   /\ (exists m, read exH ex_signed2 (KR_Key exkey) [] None false 1200 = Ok m /\ m_had_tsig m = true
                 /\ length (m_recs m) = 2%nat)
   /\ (exists s3, get_section_n exH ex_signed2 (KR_Key exkey) [] 1200 false 3 2 0 1
-                   {| r_pos := 19; r_tsig := None; r_ctx := None; r_recs := [] |} = Ok s3
+                   {| r_pos := 19; r_tsig := None; r_ctx := None; r_recs := []; r_opt := false |} = Ok s3
                  /\ r_pos s3 = length exwire2).
 Proof.
   split; [eexists; vm_compute; reflexivity|].
